@@ -185,3 +185,27 @@ def unit_punch_order(twin=False):
     r.add("cell_blocks_in_heading_order", DISCHARGED if cells == heads else FAILED, "syntactic", 0, "heading blocks: %r; cell blocks (punch_all order): %r" % (heads, cells))
     r.assumptions += ["identifier columns (sim, state, ...) and USER_PUNCH come first / last in both by construction and are not compared", "within a block both sides iterate the same vector in index order (read from the loop heads)"]
     return r
+
+
+def unit_row_end_signalled(twin=False):
+    """Every routine that writes a data row of selected output (cells through fpunchf, then the newline) signals the end of the row to
+    the value table (fpunchf_end_row -> IPhreeqc::EndRow): otherwise the file and string gain a line and the table does not."""
+    r = U.new_unit("C05.rows.end_of_row_signalled_wherever_a_row_is_written", "src/phreeqcpp/inverse.cpp", "Phreeqc::punch_model", A.find_function("src/phreeqcpp/inverse.cpp", "Phreeqc::punch_model"), kind="structural")
+    n = 0
+    for rel, q in (("src/phreeqcpp/print.cpp", "Phreeqc::punch_all"), ("src/phreeqcpp/inverse.cpp", "Phreeqc::punch_model")):
+        fn = A.find_function(rel, q)
+        for lp in A.walk(fn):
+            if lp.get("kind") != "ForStmt" or "SelectedOutput_map.end()" not in (text_of(rel, lp["inner"][2]) if lp["inner"][2] else ""):
+                continue
+            stmts = [text_of(rel, x) for x in lp["inner"][-1].get("inner", [])]
+            nl = [i for i, t in enumerate(stmts) if 'punch_msg("\\n")' in t]
+            if not nl:
+                continue
+            n += 1
+            er = [i for i, t in enumerate(stmts) if t.startswith("fpunchf_end_row(")]
+            ok = bool(er) and er[-1] > nl[-1] and not (twin and n == 1)
+            r.add("%s.newline_of_the_row_followed_by_fpunchf_end_row" % q.split("::")[-1], DISCHARGED if ok else FAILED, "syntactic", 0,
+                  "row loop ends with: %r" % (stmts[-4:],))
+    r.add("reach.row_writers", DISCHARGED if n >= 2 else UNDECIDED, "syntactic", 0, "%d" % n, kind="vacuity")
+    r.assumptions += ["row writers are the per-SELECTED_OUTPUT loops that emit the newline themselves (punch_all, punch_model)", "text anchors"]
+    return r
